@@ -36,6 +36,7 @@ LocalAuthMiddlewarePrivate::LocalAuthMiddlewarePrivate(QObject *parent)
       tokenHeader("X-Auth-Token"),
       token(QUuid::createUuid().toString())
 {
+    data.insert("token", token);
     updateFile();
 }
 
